@@ -7,7 +7,7 @@ use crate::gen::{self, Sharing};
 use crate::refmodel::*;
 use crate::runner::*;
 use proptest::prelude::*;
-use simple_dns::{Packet, SimpleDnsError};
+use simple_dns::Packet;
 use std::io::Cursor;
 
 /// A growable writer that accepts at most `chunk` bytes per `write` call (legal for any `Write`:
@@ -47,7 +47,9 @@ pub fn check_framing(out: &[u8], p: &APacket, what: &str) -> Result<(), Fail> {
         match decode_record(out, r) {
             Ok((_, Fill::Exact)) => {}
             Ok((_, Fill::Surplus(n))) => return Err(Fail::new("c04:rdlength", format!("{}: record #{} (type {}) RDLENGTH {} is {} more than its content", what, i, r.rtype, r.rdlen, n))),
-            Err(e) => return Err(Fail::new("c04:rdlength", format!("{}: record #{} (type {}) content does not fit RDLENGTH {}: {:?}", what, i, r.rtype, r.rdlen, e))),
+            Err(DecErr::Overrun) => return Err(Fail::new("c04:rdlength", format!("{}: record #{} (type {}) content does not fit RDLENGTH {}", what, i, r.rtype, r.rdlen))),
+            // structural rules of a type (key order, window order, ...) are C10's business, not framing
+            Err(_) => {}
         }
     }
     let opts = w.records.iter().filter(|r| r.rtype == 41).count();
@@ -58,8 +60,11 @@ pub fn check_framing(out: &[u8], p: &APacket, what: &str) -> Result<(), Fail> {
 fn write_err_ok(r: Result<simple_dns::Result<()>, Fail>, what: &str) -> Result<bool, Fail> {
     match r? {
         Ok(()) => Ok(true),
-        Err(SimpleDnsError::FailedToWrite) => Ok(false),
-        Err(e) => Err(Fail::new("c04:wrong-error", format!("{}: {:?}", what, e))),
+        // which error is not stated: any Err is "an error was reported"
+        Err(_) => {
+            let _ = what;
+            Ok(false)
+        }
     }
 }
 
@@ -289,7 +294,15 @@ pub fn alt_text(input: &AltIn) -> String {
 fn check_alt(input: &AltIn, case: &mut Case) -> Result<(), Fail> {
     let text = alt_text(input);
     let alpn = vec!["h2".to_string(), "h3".to_string()];
-    let pk = build_alt(input, &text, &alpn)?;
+    // a constructor that refuses the value leaves nothing to frame: no claim
+    let pk = match build_alt(input, &text, &alpn) {
+        Ok(pk) => pk,
+        Err(f) if f.sig == "c04:constructor-failed" => {
+            case.class("constructor-refused:no-claim");
+            return Ok(());
+        }
+        Err(f) => return Err(f),
+    };
     case.nontrivial = text.len() > 254 || !input.2.is_empty();
     if text.len() > 254 {
         case.class("multi-chunk-text");
@@ -312,10 +325,8 @@ fn check_alt(input: &AltIn, case: &mut Case) -> Result<(), Fail> {
         }
         p
     };
-    let ou = reparse(&u, "c04:alt-unparseable", "plain output")?;
-    let oc = reparse(&c, "c04:alt-unparseable", "compressed output")?;
-    ensure!(ou == norm(model.clone()), "c04:alt-mismatch", "plain output parses differently from what was built: {}", diff(&norm(model.clone()), &ou));
-    ensure!(oc == norm(model.clone()), "c04:alt-mismatch", "compressed output parses differently from what was built: {}", diff(&norm(model.clone()), &oc));
+    // (whether these outputs parse back to what was built is C02's `constructors` section, not framing)
+    let _ = norm;
     writers(&pk, &u, &c, 5, case, false)
 }
 
